@@ -162,7 +162,10 @@ func (h *H) closeServer() {
 }
 
 func (h *H) newHistory(tk []string) {
-	h.closeServer()
+	if h.srv != nil {
+		h.closeServer()
+		h.mon.fsUnchanged(h)
+	}
 	if h.sentinel != "" {
 		_ = os.RemoveAll(h.sentinel)
 		h.sentinel = ""
@@ -203,6 +206,7 @@ func (h *H) restart(tk []string) {
 	}
 	h.mon.beforeRestart(h)
 	h.closeServer()
+	h.mon.fsUnchanged(h) // what Close itself did to a protected directory (the configuration is still that of the closed server)
 	merged := append([]string{}, h.confToks...)
 	for _, t := range tk {
 		k := strings.SplitN(t, "=", 2)[0]
@@ -216,6 +220,9 @@ func (h *H) restart(tk []string) {
 	}
 	h.confToks = merged
 	h.conf = h.buildConf(merged)
+	if kv(tk, "prep") == "1" {
+		h.fsPrep()
+	}
 	h.srv = olareg.New(h.conf)
 	h.mon.restarted(h)
 	h.mon.fsBaseline(h)
@@ -390,6 +397,23 @@ func (h *H) makeOutside(dir string) {
 	_ = os.WriteFile(filepath.Join(dir, "blobs", "sha256", d.Encoded()), secret, 0o644)
 	h.tk.reg("outsidesecret", secret)
 	h.outside = fsSnapshot(dir)
+}
+
+// fsPrep: things a writable server may leave behind, put into the directory by hand before it is reopened read-only or
+// under a memory store: an empty _uploads folder in an existing repository and a repository without content.
+// No request addresses them; the protected directory must keep them as they are.
+func (h *H) fsPrep() {
+	if h.root == "" {
+		return
+	}
+	if _, err := os.Stat(filepath.Join(h.root, "r1")); err == nil {
+		_ = os.MkdirAll(filepath.Join(h.root, "r1", "_uploads"), 0o755)
+	}
+	e := filepath.Join(h.root, "rleft")
+	_ = os.MkdirAll(filepath.Join(e, "blobs", "sha256"), 0o755)
+	_ = os.MkdirAll(filepath.Join(e, "_uploads"), 0o755)
+	_ = os.WriteFile(filepath.Join(e, "oci-layout"), []byte(`{"imageLayoutVersion":"1.0.0"}`), 0o644)
+	_ = os.WriteFile(filepath.Join(e, "index.json"), []byte(`{"schemaVersion":2,"mediaType":"application/vnd.oci.image.index.v1+json","manifests":[]}`), 0o644)
 }
 
 // touchIndex makes index.json of a repository of the directory store look modified, so that the forced load at the
